@@ -104,7 +104,38 @@ class Case:
             len(obs), len(full), M, k, obs[max(0, k - 10):k + 20], full[max(0, k - 10):k + 20])
 
 
+class DirCase:
+    """output = file:%{env:LOGDIR}/r.log where LOGDIR is an existing directory whose name has exactly h.fmt[1].out bytes; dsmax = the configured
+    datasource_message_max_length (None = default), which must not matter for a path template"""
+
+    def __init__(self, h, dsmax):
+        self.h, self.dsmax = h, dsmax
+        self.src = b"%{env:LOGDIR}/r.log"
+        self.env = []
+
+    def verdict(self, obs, M):
+        return None                          # observed_message() has already compared the directory listing
+
+    def place(self, ctx, label):
+        n = self.h["fmt"][0]["out"]
+        base = os.path.join(ctx.w, "T", label).encode()
+        v = base
+        while len(v) < n:
+            room = n - len(v) - 1
+            v += b"/" + b"d" * min(200, room) if room >= 1 else b"/"
+            if room < 1:
+                break
+        if len(v) != n:                      # cannot hit the length exactly with this base (needs n >= len(base) + 2)
+            return None
+        self.dirvalue = v
+        self.envset = [(b"LOGDIR", v)]
+        return v
+
+
 def family_ini(fam, case, D, M, ctx):
+    if fam == "pathdir":
+        return (b'[snoopy]\nmessage_format = "m"\noutput = file:' + case.src + b"\n" +
+                (b"datasource_message_max_length = %d\n" % case.dsmax if case.dsmax else b""))
     if fam == "message":
         return (b'[snoopy]\nmessage_format = "' + case.src + b'"\noutput = file:' + ctx.log +
                 b"\ndatasource_message_max_length = %d\nlog_message_max_length = %d\n" % (D, M))
@@ -126,9 +157,13 @@ def run_cases(b, fam, cases, workdir):
         s.add("sinkfile", "file", drv.hx(ctx.log)).add("sinkdevlog", "devlog", drv.hx(ctx.devlog))
         s.path(ctx.helper).argv([b"prog", b"arg"]).envp([b"A=1"]).add("ret", -1, 2).add("snap", 0)
         for label, case, D, M in batches[i]:
+            if fam == "pathdir" and case.place(ctx, label) is None:
+                continue
             s.add("emit", "item:" + label).add("fork").add("ini", drv.hx(family_ini(fam, case, D, M, ctx)))
             for name, ln, seed in case.env:
                 s.add("envpat", drv.hx(name), ln, seed)
+            if fam == "pathdir":
+                s.add("mkdirp", drv.hx(case.dirvalue))
             for name, value in getattr(case, "envset", []):
                 s.add("envset", drv.hx(name), drv.hx(value))
             if fam == "path":
@@ -136,6 +171,8 @@ def run_cases(b, fam, cases, workdir):
             s.call("execve", label)
             if fam == "path":
                 s.add("listdir", drv.hx(os.path.join(ctx.w, "T").encode()))
+            if fam == "pathdir":
+                s.add("listdir", drv.hx(case.dirvalue))
             s.add("endfork")
         sp, op = os.path.join(ctx.w, "script"), os.path.join(ctx.w, "out")
         open(sp, "w").write(s.text())
@@ -194,6 +231,12 @@ def observed_message(fam, case, o):
         if not d[0].startswith(b"<86>") or not d[0].endswith(suffix):
             return None, "datagram %r does not have the shape <86>ident[pid]: m" % d[0][:80]
         return d[0][4:len(d[0]) - len(suffix)], None
+    if fam == "pathdir":
+        d = o.get("dir")
+        files = [(bytes.fromhex(n), bytes.fromhex(cont)) for n, cont in d["files"]] if d else []
+        if files != [(b"r.log", b"m\n")]:
+            return None, "the directory named by the template (%d bytes) holds %r instead of the one record file r.log" % (len(case.dirvalue), [(f[0][:20], f[1][:10]) for f in files])
+        return case.dirvalue + b"/r.log", None
     # path template: the file named by the expansion must exist (and hold the record "m")
     d = o.get("dir")
     if d is None:
@@ -239,8 +282,16 @@ def run(tier, seed, replay=None):
     gp = c.run_tlc("MessageFormatMC.tla", "MessageFormatGenPath.cfg")
     rep.tlc(gp)
     fams.append(("path", "p", [json.loads(x) for x in gp.printed]))
+    gd = c.run_tlc("MessageFormatMC.tla", "MessageFormatGenPathDir.cfg")
+    rep.tlc(gd)
+    fams.append(("pathdir", "d", [h for h in (json.loads(x) for x in gd.printed) if [t["t"] for t in h["fmt"]] == ["ds", "lit"]]))
     for fam, k, hs in fams:
         cases = []
+        if fam == "pathdir":
+            for i, h in enumerate(hs):
+                for j, dsmax in enumerate((None, 255, 1048575)):
+                    cases.append(("d%d_%d" % (i, j), DirCase(h, dsmax), h["D"], h["M"]))
+            hs = []
         for i, h in enumerate(hs):
             cs = Case(h, pathsafe=(fam == "path"))
             if fam == "path" and (sum(p_["len"] for p_ in h["cont"]) > 250 or any(t["t"] == "unknown" and False for t in h["fmt"])):
